@@ -88,7 +88,7 @@ CHECKS['C17'] = (OTHER, 'symbolic execution from source of calc_k0L / calc_kG / 
     'Series orders (2,2,1) and (3,2,2) (the non-linear series start at i=0, order 1 is vacuous); Donnell CLPT bc1-4 hold; every Sanders CLPT and first-order-shear model violates the identity (recorded findings with signatures, reproduced on the compiled kernels); resolution of the grids, OpenMP scheduling, iso_ and bcn non-linear modules outside.',
     'DESIGN.md section 9.2 / 4 C17')
 NA = {
-    'C15': 'eigenvalue monotonicity/convergence for pencils of size 48..768 is not a bounded first-order query any installed solver can decide; the algebraic ingredients (exact Hessians, exact tables, nestedness) are decided under C02-C04 and C10 (DESIGN.md section 5)',
+    'C15': 'eigenvalue monotonicity/convergence for pencils of size 48..768 is not a bounded first-order query any installed solver can decide; the algebraic ingredients are decided elsewhere: exact Hessians under C02-C04, exact tables under C10, nestedness of the trial spaces (matrices of orders (m,n) are principal sub-matrices of those of (m+1,n) and (m,n+1)) under C14 relation (i); monotone convergence then follows from the interlacing theorem, which no check here proves (DESIGN.md section 5)',
 }
 man = {
     'version': 1,
